@@ -33,14 +33,20 @@ fn mk_cfg(seed: u64, keep_alive: Duration) -> NodeCfg {
 // ---------------------------------------------------------------------------------------------
 
 async fn c01_wrong_peer(seed: u64, exec: &ChaosExecutor) -> Result<(bool, bool, usize), String> {
-    // A dials B's socket with C's peer id
+    // A dials B's socket with C's peer id; odd seeds: by peer id (the address book entry names C)
+    let by_peer_id = seed % 2 == 1;
     let mut rng = Rng::new(seed);
     let a = spawn_side_with(&mk_cfg(rng.u64(), Duration::from_secs(20)), exec, None, false)?;
     let b = spawn_side_with(&mk_cfg(rng.u64(), Duration::from_secs(20)), exec, None, false)?;
     let c_peer: PeerId = mk_cfg(rng.u64(), Duration::from_secs(20)).keypair().public().to_peer_id();
     let addr = tcp_multiaddr(b.node.socket, Some(c_peer));
     let df0 = dial_failures(&a.node);
-    a.node.dial_address(addr).await?;
+    if by_peer_id {
+        a.node.add_known(c_peer, vec![addr]).await;
+        a.node.dial(c_peer).await?;
+    } else {
+        a.node.dial_address(addr).await?;
+    }
     let dl = Instant::now() + Duration::from_secs(6);
     wait_until(dl, || dial_failures(&a.node) > df0 || est_count(&a.node, &c_peer) > 0 || est_count(&a.node, &b.node.peer) > 0).await;
     // a little longer: an established event after a failure would also be wrong
@@ -105,8 +111,8 @@ pub fn c01_node_level(ctx: &Ctx, rep: &mut Report) {
         let lag = LagMonitor::start();
         let exec = ChaosExecutor::new(tokio::runtime::Handle::current(), ctx.seed, 0.0);
         // ---- wrong /p2p ------------------------------------------------------------------------------
-        for _ in 0..ctx.pick(2, 12) {
-            let seed = rng.u64();
+        for k in 0..ctx.pick(2u64, 12) {
+            let seed = (rng.u64() & !1) | (k % 2); // both dial entry points
             rep.case(&("node-wrong-peer", seed), true);
             judge_wrong_peer(rep, seed, c01_wrong_peer(seed, &exec).await);
         }
@@ -176,7 +182,12 @@ fn judge_wrong_peer(rep: &mut Report, seed: u64, r: Result<(bool, bool, usize), 
                     replay,
                 );
             } else if failures == 0 {
-                rep.inconclusive("C01 node level: wrong-peer dial produced neither outcome within 6 s");
+                // "fails with an error": silence is not an error
+                rep.violation(
+                    format!("C01/node/identity-mismatch-not-reported-as-error/{}", if seed % 2 == 1 { "dial-by-peer-id" } else { "dial-address" }),
+                    "the listener proved another identity than the dialed one: no connection was reported, but no dial failure either within 6 s".to_string(),
+                    replay,
+                );
             } else {
                 rep.hit("node_wrong_peer_dials_refused");
             }
